@@ -26,6 +26,7 @@ KINDS = ("mixin", "plain", "orjson", "msgpack")
 
 def bounds(tier):
     return dict(tier=tier, shapes=list(SHAPES), depths=[2, 3], class_kinds=list(KINDS), context_masks="all subsets of {Root, Mid, A, B}",
+                other_flags=["nested classes only", "root only", "mixed"],
                 entry_points=["mixin", "basic", "json", "orjson", "msgpack", "yaml", "orjson-mixin", "msgpack-mixin"])
 
 
@@ -39,6 +40,12 @@ def units(tier):
             masks = range(16) if tier == "thorough" else (0, 15, 9, 5)
             for mask in masks:        # Root, Mid, A, B
                 out.append((kind, 3, s1, s2, mask))
+    # other keyword flags enabled on some of the classes only (nested-only, root-only, mixed)
+    for s1 in SHAPES:
+        for extra in (1, 2, 3):
+            out.append(("mixin", 2, s1, None, 7, extra))
+            out.append(("mixin", 3, s1, "direct", 15, extra))
+            out.append(("mixin", 3, "list", s1, 15, extra))
     return out
 
 
@@ -62,8 +69,11 @@ def _hooks(name, ctx_on):
         f"        return replace(obj, tag=obj.tag + '$')\n")
 
 
-def _cfg(ctx_on):
-    return "    class Config(BaseConfig):\n        code_generation_options = [ADD_SERIALIZATION_CONTEXT]\n" if ctx_on else ""
+def _cfg(ctx_on, extra=()):
+    flags = list(extra) + (["ADD_SERIALIZATION_CONTEXT"] if ctx_on else [])
+    if not flags:
+        return ""
+    return f"    class Config(BaseConfig):\n        code_generation_options = [{', '.join(flags)}]\n"
 
 
 def shape_type(shape, child):
@@ -103,8 +113,12 @@ def shape_values(shape, ones, twos):
 
 
 class Tree:
-    def __init__(self, kind, depth, s1, s2, mask):
+    def __init__(self, kind, depth, s1, s2, mask, extra=0):
         self.ctx = space.Ctx()
+        # other keyword flags on some classes only: they must not disturb the forwarding of `context`
+        leaf_x = ("TO_DICT_ADD_OMIT_NONE_FLAG",) if extra == 1 else (("TO_DICT_ADD_BY_ALIAS_FLAG", "ADD_DIALECT_SUPPORT") if extra == 3 else ())
+        mid_x = ("TO_DICT_ADD_BY_ALIAS_FLAG",) if extra in (1, 3) else ()
+        root_x = ("TO_DICT_ADD_OMIT_NONE_FLAG", "ADD_DIALECT_SUPPORT") if extra == 2 else ()
         ns = self.ctx.ns
         ns["LOG"] = self.log = []
         ns["replace"] = dataclasses.replace
@@ -118,13 +132,13 @@ class Tree:
         else:
             on = dict(Root=bool(mask & 1), Mid=bool(mask & 2), A=bool(mask & 4), B=bool(mask & 8))
         self.on, self.depth, self.kind = on, depth, kind
-        self.ctx.run(f"@dataclass\nclass A{base}:\n    tag: str\n{_cfg(on['A'])}{_hooks('A', on['A'])}")
-        self.ctx.run(f"@dataclass\nclass B{base}:\n    tag: str\n    extra: int = 0\n{_cfg(on['B'])}{_hooks('B', on['B'])}")
+        self.ctx.run(f"@dataclass\nclass A{base}:\n    tag: str\n{_cfg(on['A'], leaf_x)}{_hooks('A', on['A'])}")
+        self.ctx.run(f"@dataclass\nclass B{base}:\n    tag: str\n    extra: int = 0\n{_cfg(on['B'], leaf_x)}{_hooks('B', on['B'])}")
         if depth == 3:
-            self.ctx.run(f"@dataclass\nclass Mid{base}:\n    tag: str\n    c: {shape_type(s2, 'AB')}\n{_cfg(on['Mid'])}{_hooks('Mid', on['Mid'])}")
-            self.ctx.run(f"@dataclass\nclass Root{base}:\n    tag: str\n    m: {shape_type(s1, 'Mid')}\n{_cfg(on['Root'])}{_hooks('Root', on['Root'])}")
+            self.ctx.run(f"@dataclass\nclass Mid{base}:\n    tag: str\n    c: {shape_type(s2, 'AB')}\n{_cfg(on['Mid'], mid_x)}{_hooks('Mid', on['Mid'])}")
+            self.ctx.run(f"@dataclass\nclass Root{base}:\n    tag: str\n    m: {shape_type(s1, 'Mid')}\n{_cfg(on['Root'], root_x)}{_hooks('Root', on['Root'])}")
         else:
-            self.ctx.run(f"@dataclass\nclass Root{base}:\n    tag: str\n    m: {shape_type(s1, 'AB')}\n{_cfg(on['Root'])}{_hooks('Root', on['Root'])}")
+            self.ctx.run(f"@dataclass\nclass Root{base}:\n    tag: str\n    m: {shape_type(s1, 'AB')}\n{_cfg(on['Root'], root_x)}{_hooks('Root', on['Root'])}")
         self.s1, self.s2 = s1, s2
 
     def values(self):
@@ -233,9 +247,10 @@ def entry_points(tree):
 
 
 def run_unit(unit, only=None):
-    kind, depth, s1, s2, mask = unit
+    kind, depth, s1, s2, mask = unit[:5]
+    extra = unit[5] if len(unit) > 5 else 0
     res = core.UnitResult()
-    tree = Tree(kind, depth, s1, s2, mask)
+    tree = Tree(kind, depth, s1, s2, mask, extra)
 
     def V(clause, ep, vi, detail, oc=""):
         res.violation(f"{clause}|{unit}|{ep}|{oc}", clause, oc or clause, dict(unit=unit, entry=ep, value_index=vi), detail)
